@@ -297,6 +297,9 @@ func (e *Eng) execAssign(st *State, s *ast.AssignStmt) *State {
 				idxVal = e.eval(st, ix.Index)
 			}
 		}
+		if _, exact := e.con.At[keys[0]]; exact && len(keys) > 1 {
+			keys = keys[:1] // an exact-text anchor takes precedence over the base[*] wildcard
+		}
 		for _, key := range keys {
 			cls, ok := e.con.At[key]
 			if !ok {
